@@ -120,7 +120,7 @@ Lemma step_other_untouched s o r' :
   (r' < length (s_logs s))%nat ->
   nth_error (s_logs (fst (step s o))) r' = nth_error (s_logs s) r'.
 Proof.
-  intros Hr Hlen. destruct o as [id key sf deny t0|r payload pc h|r src size|r key|r mh|r io|r payload pc h|r|osrc okeep oid okey osf odeny]; cbn [step].
+  intros Hr Hlen. destruct o as [id key sf deny t0|r payload pc h|r src size|r key|r mh|r io|r payload pc h|r|osrc okeep ohh oid okey osf odeny]; cbn [step].
   - cbn [fst s_logs]. now rewrite nth_error_app1.
   - destruct (nth_error (s_logs s) r) as [l|] eqn:L; [|reflexivity].
     destruct (append l payload pc h) as [l' out] eqn:A.
@@ -156,7 +156,7 @@ Proof.
           exists l', nth_error (s_logs (fst (step s o))) r = Some l' /\ entries_subset l l' /\
              (length (l_entries l) <= length (l_entries l'))%nat).
   { intros H. exists l. split; [exact H|]. split; [intros k v; auto|lia]. }
-  destruct o as [id key sf deny t0|r0 payload pc h|r0 src size|r0 key|r0 mh|r0 io|r0 payload pc h|r0|osrc okeep oid okey osf odeny].
+  destruct o as [id key sf deny t0|r0 payload pc h|r0 src size|r0 key|r0 mh|r0 io|r0 payload pc h|r0|osrc okeep ohh oid okey osf odeny].
   - apply Same. rewrite step_other_untouched; auto.
   - destruct (Nat.eq_dec r0 r) as [->|Hne]; [|apply Same; rewrite step_other_untouched; auto].
     cbn [step]. rewrite L. unfold append.
@@ -214,7 +214,7 @@ Qed.
 
 Lemma keyinv_step s o : keyinv s -> keyinv (fst (step s o)).
 Proof.
-  intros K. destruct o as [id key sf deny t0|r payload pc h|r src size|r key|r mh|r io|r payload pc h|r|osrc okeep oid okey osf odeny]; cbn [step].
+  intros K. destruct o as [id key sf deny t0|r payload pc h|r src size|r key|r mh|r io|r payload pc h|r|osrc okeep ohh oid okey osf odeny]; cbn [step].
   - intros r l H. cbn [fst s_logs] in H.
     destruct (Nat.lt_ge_cases r (length (s_logs s))) as [Hl|Hl].
     + rewrite nth_error_app1 in H by assumption. eauto.
